@@ -56,7 +56,7 @@ func TestC15Child(t *testing.T) {
 	}
 	ctx, cancel := context.WithCancel(context.Background())
 	go func() { // safety net: never hang the parent
-		time.Sleep(25 * time.Second)
+		time.Sleep(12 * time.Second)
 		fmt.Fprintf(out, "F timeout\n")
 		os.Exit(5)
 	}()
